@@ -15,3 +15,19 @@ pub assume_specification<'a, K, V, S, A: Allocator>[ <&'a HashMap<K, V, S, A> as
 }
 }
 pub use hash_iter::*;
+// ---- TRUSTED: `for x in &hash_set` (IntoIterator for &HashSet) yields every member exactly once, in some order
+pub mod hash_set_iter {
+use vstd::prelude::*;
+use vstd::std_specs::iter::IteratorSpec;
+use std::collections::HashSet;
+use std::alloc::Allocator;
+verus! {
+pub assume_specification<'a, T, S, A: Allocator>[ <&'a HashSet<T, S, A> as IntoIterator>::into_iter ](m: &'a HashSet<T, S, A>) -> (r: std::collections::hash_set::Iter<'a, T>)
+    ensures
+        r.obeys_prophetic_iter_laws(), r.decrease() is Some,
+        r.remaining().no_duplicates(), r.remaining().len() == m@.len(),
+        forall|i: int| 0 <= i < r.remaining().len() ==> m@.contains(*(#[trigger] r.remaining()[i])),
+        forall|k: T| #[trigger] m@.contains(k) ==> exists|i: int| 0 <= i < r.remaining().len() && *(#[trigger] r.remaining()[i]) == k;
+}
+}
+pub use hash_set_iter::*;
